@@ -377,6 +377,14 @@ pub fn generate(seed: u64, n: usize, thorough: bool, corpus: Option<&str>) -> Ve
         push(format!("min y\ns.t.\n    y >= len(c)\nwhere\n    let c = {}\ndefine\n    y as Real\n", a), "printer-edges", &mut cases);
         push(format!("min y + len({})\ns.t.\n    y >= 1\ndefine\n    y as Real\n", a), "printer-edges", &mut cases);
     }
+    // constants that are not named (`let _ = e`, 67931d1) and the lone `_` elsewhere
+    for d in ["let _ = 1 + 2", "let _ = y[0]\n    let y = [1, 2]", "let _ = 5\n    let _ = 6", "let k = 2\n    let _ = k * (k + 1)", "let _ = sum(i in 0..2) { i }",
+              "let _ = _", "let _x = 1", "let x_ = 1"] {
+        push(format!("min y\ns.t.\n    y >= 1\nwhere\n    {}\ndefine\n    y as Real\n", d), "unnamed-constants", &mut cases);
+    }
+    for c in ["_ >= 1", "y >= _", "_: y >= 1", "y >= sum(_ in 0..2) { 1 }", "y >= sum((_, v) in edges(G)) { v }", "y >= _[0]", "y >= 2_", "y >= _(1)"] {
+        push(format!("min y\ns.t.\n    {}\ndefine\n    y as Real\n", c), "unnamed-constants", &mut cases);
+    }
     for d in ["let r = range(0, 3, false)", "let r = range(0, 3, true)", "let r = union(range(0, 2, false), [5, 6])"] {
         push(format!("min y\ns.t.\n    y >= len(r)\n    y >= sum(i in r) {{ i }}\nwhere\n    {}\ndefine\n    y as Real\n", d), "printer-edges", &mut cases);
     }
